@@ -230,3 +230,45 @@ PROPS["C15"] = dict(
           "at arbitrary points including between a poll's fetch and its apply; observed per Get: source bytes and identity of the returned value, Err, number of builder runs, Close counts; "
           "a case is (rebuild or keep, build outcome, installs since the previous Get)"),
 )
+
+
+def conc_shards(tier, seed, search=False):
+    k, n = (6, 150) if tier == "quick" else (16, 2000)
+    return [Shard("conc", ["-seed", str(s), "-n", str(n)], driver="conc", binary="trace-race", race_props=["C14", "C06"]) for s in seeds(seed, k)]
+
+
+PROPS["C14"] = dict(
+    race=True,
+    shards=conc_shards,
+    trusted=BASE_TRUST + ["sync.Mutex and the Go memory model (a locked region is one atomic step)", "the Go race detector for data-race freedom (sampled schedules)",
+                          "the linearizability search in the Lean driver (exhaustive per history, memoised on (linearized set, state))"],
+    assumptions=["real schedules are sampled; the theorem covers all interleavings of the model's atomic steps"],
+    rule=("concurrent histories against one db.DB under the race detector: 3-5 goroutines x 3-6 calls (put incl. equal values, get, get-version, conditional get, activate, delete-version, "
+          "delete, info, list) on 1-2 shared names after 0-2 seed puts, one third through the HTTP handlers and the real client; every call stamped at invocation and return with a global "
+          "atomic counter; each history decided by exhaustive linearizability search against DB.step including the final file state; the audit file is re-read line by line; "
+          "a case is (path, #threads, #calls, overlapping?)"),
+)
+PROPS["C06"]["race"] = True
+_c06 = PROPS["C06"]["shards"]
+PROPS["C06"]["shards"] = lambda tier, seed, search=False: _c06(tier, seed, search) + conc_shards(tier, seed, search)[:2]
+PROPS["C06"]["rule"] = PROPS["C06"]["rule"] + "; plus the concurrent family (real audit file, every line must be one complete record, race detector on)"
+
+
+def concstore_shards(tier, seed, search=False, props=("C12",)):
+    k, n = (6, 4) if tier == "quick" else (16, 30)
+    return [Shard("concstore", ["-seed", str(s), "-n", str(n)], driver="concstore", binary="storetrace-race", race_props=list(props)) for s in seeds(seed, k)]
+
+
+PROPS["C12"] = dict(
+    race=True,
+    shards=lambda tier, seed, search=False: concstore_shards(tier, seed, search) + store_shards(tier, seed, search)[:3],
+    trusted=STORE_TRUST + ["the Go race detector (sampled schedules)", "the model's atomic steps are the code's critical sections under active.Lock; requests to the service are never inside one"],
+    assumptions=["partial: invariants are proved for all sequences of the model's atomic steps; non-blocking, data-race freedom and that the code's critical sections are those steps are observed, not proved"],
+    rule=("3-5 reader goroutines calling handles of two declared, one looked-up and one concurrently looked-up name (and an Updater's Get) in a tight loop under the race detector while "
+          "6-11 rounds run: service versions bump, the wall clock jumps past the expiry age, the service is held at a gate, a poll (explicit or background) and a lookup are started, and "
+          "while their requests are blocked every reader must complete more reads; then Close, after which reads must continue. Every read value must be '<that name>#<index served>', "
+          "indices per reader non-decreasing; plus the sequential store family; a case is (#readers, #blocked windows)"),
+)
+PROPS["C15"]["race"] = True
+_c15 = PROPS["C15"]["shards"]
+PROPS["C15"]["shards"] = lambda tier, seed, search=False: _c15(tier, seed, search) + concstore_shards(tier, seed, search, props=("C15",))[:2]
